@@ -124,6 +124,8 @@ func (p Path) retDesc() string {
 // Scenario fixes the atoms.
 type Scenario struct {
 	Name string
+	// Redirect resolves a call to a function of the program that is evaluated in place with the given arguments.
+	Redirect func(callee string, args []SV, ev *symEval, st *symState) (*ssa.Function, []SV, func([]SV, *symState) []SV, bool)
 	// Heap gives initial values for memory addressed by description ("recv.buf", "recv.matching",
 	// "global:layer4.MaxMatchingBytes", "p0[0]" ...). Unlisted memory is symbolic.
 	Heap map[string]SV
@@ -885,6 +887,72 @@ func (ev *symEval) doCall(fr *symFrame, st *symState, x *ssa.Call) ([]outcome, b
 			return outs, true
 		}
 	}
+	if (strings.HasPrefix(id, "slices.ContainsFunc") || strings.HasPrefix(id, "slices.IndexFunc")) && len(args) == 2 && args[0].Len != nil && args[0].Len.Known && args[0].Len.N <= 8 && args[1].Fn != nil && len(args[1].Fn.Blocks) > 0 && fr.depth < 6 {
+		// the library loop written out: the predicate is evaluated in place on the elements in order until it says yes
+		st.trace = append(st.trace, ev.callEvent(fr, "call", x))
+		wantIndex := strings.HasPrefix(id, "slices.IndexFunc")
+		var elems []SV
+		for i := int64(0); i < args[0].Len.N; i++ {
+			e, ok := lookupElem(st, args[0].Desc, i)
+			if !ok {
+				e = symOpaque(fmt.Sprintf("%s[%d]", args[0].Desc, i))
+			}
+			elems = append(elems, e)
+		}
+		var step func(i int, s2 *symState) []outcome
+		step = func(i int, s2 *symState) []outcome {
+			if i >= len(elems) {
+				if wantIndex {
+					return []outcome{{st: s2, ret: []SV{symInt(-1)}, kind: "return"}}
+				}
+				return []outcome{{st: s2, ret: []SV{symBool(false)}, kind: "return"}}
+			}
+			var res []outcome
+			for _, o := range ev.call(args[1].Fn, []SV{elems[i]}, args[1].Bind, s2, fr.depth+1) {
+				if o.kind != "return" || len(o.ret) != 1 {
+					res = append(res, o)
+					continue
+				}
+				switch {
+				case o.ret[0].K == "bool" && o.ret[0].Known && o.ret[0].B:
+					if wantIndex {
+						res = append(res, outcome{st: o.st, ret: []SV{symInt(int64(i))}, kind: "return"})
+					} else {
+						res = append(res, outcome{st: o.st, ret: []SV{symBool(true)}, kind: "return"})
+					}
+				case o.ret[0].K == "bool" && o.ret[0].Known:
+					res = append(res, step(i+1, o.st)...)
+				default:
+					// undetermined predicate: both continuations
+					s3 := o.st.clone()
+					if wantIndex {
+						res = append(res, outcome{st: s3, ret: []SV{symInt(int64(i))}, kind: "return"})
+					} else {
+						res = append(res, outcome{st: s3, ret: []SV{symBool(true)}, kind: "return"})
+					}
+					res = append(res, step(i+1, o.st)...)
+				}
+			}
+			return res
+		}
+		return step(0, st), true
+	}
+	if ev.sc.Redirect != nil && fr.depth < 12 {
+		// the scenario resolves this call to a function of the program evaluated in place (e.g. a module looked
+		// up in a registry by name), with its own arguments; wrap turns the function's results into the call's
+		if f, fargs, wrap, ok := ev.sc.Redirect(id, args, ev, st); ok && f != nil && len(f.Blocks) > 0 {
+			e := ev.callEvent(fr, "call", x)
+			e.Note = "resolved to " + fname(f)
+			st.trace = append(st.trace, e)
+			outs := ev.call(f, fargs, nil, st, fr.depth+1)
+			for i := range outs {
+				if outs[i].kind == "return" && wrap != nil {
+					outs[i].ret = wrap(outs[i].ret, outs[i].st)
+				}
+			}
+			return outs, true
+		}
+	}
 	if ev.sc.Call != nil {
 		if r, ok := ev.sc.Call(id, args, ev, st); ok {
 			st.trace = append(st.trace, ev.callEvent(fr, "call", x))
@@ -1166,6 +1234,17 @@ func (ev *symEval) evalValue(fr *symFrame, st *symState, v ssa.Value) SV {
 				if bs, ok := concreteBytes(st, a); ok {
 					return symStr(string(bs)) // every byte of the slice is known
 				}
+			}
+		}
+		if ts, ok := x.Type().Underlying().(*types.Slice); ok && a.K == "str" && a.Known {
+			if eb, ok := ts.Elem().Underlying().(*types.Basic); ok && eb.Kind() == types.Uint8 {
+				// []byte("known"): a fresh slice holding the string's bytes
+				name := ev.fresh("bytes")
+				for i := 0; i < len(a.S); i++ {
+					st.heap[fmt.Sprintf("%s[%d]", name, i)] = symInt(int64(a.S[i]))
+				}
+				l := symInt(int64(len(a.S)))
+				return SV{K: "slice", Desc: name, Len: &l, Cap: &l, Known: true}
 			}
 		}
 		r := defaultFor(x.Type(), a.Desc)
